@@ -286,6 +286,11 @@ class BundleReader:
                 yield decompressor.decompress(line)
             except EOFError:
                 return
+        if not decompressor.eof:
+            # The compressed stream stopped before its end-of-stream marker
+            # (truncated or damaged bundle).  Say so instead of handing the
+            # container reader a short file.
+            raise errors.BadBundle("compressed bundle data is incomplete")
 
     @staticmethod
     def decode_name(name):
